@@ -109,16 +109,17 @@ func (e *c10Env) c10Reverse(s c10Start, t c10Stop, st *c10State, caseSeed uint64
 				"start_segment_is_sparse": sparse},
 			"expected_offsets": c10Offs(expected), "delivered_offsets": c10Offs(delivered), "observed": obs}
 	}
-	pair := "rev|" + s.Class + "|" + t.Class
+	cause := e.causeReverse(st, s, t, sReq, upper)
+	if cause != "" && c10Seen("rev|"+cause) >= 3*c10CauseCap {
+		out.skipped = true
+		return
+	}
 	fail := func(kind, what string) {
-		c10Mark(pair)
-		cause := ""
-		if sparse {
-			cause = "sparse-start-segment:"
-		} else if st.Readonly && documented {
-			cause = "readonly:"
+		fp := fmt.Sprintf("C10:rev:%s:start=%s:stop=%s:log=%s", kind, s.Class, t.Class, e.shape.label())
+		if cause != "" {
+			c10Mark("rev|" + cause)
+			fp = fmt.Sprintf("C10:rev:%s:%s", cause, kind)
 		}
-		fp := fmt.Sprintf("C10:rev:%s:%sstart=%s:stop=%s:log=%s", kind, cause, s.Class, t.Class, e.shape.label())
 		rep.Violation(fp, fmt.Sprintf("%s on %s log: %s", reqStr, e.shape.label(), what), witness(what))
 	}
 	ctx, cancel := context.WithCancel(context.Background())
@@ -202,9 +203,6 @@ func (e *c10Env) runReverseCases(rng *kit.RNG, nCases int) {
 		if done >= nCases {
 			break
 		}
-		if c10Seen("rev|"+pr.s+"|"+pr.t) >= 2 {
-			continue
-		}
 		s, ok := st.resolveStart(pr.s, rng)
 		if !ok {
 			continue
@@ -215,6 +213,10 @@ func (e *c10Env) runReverseCases(rng *kit.RNG, nCases int) {
 		}
 		done++
 		out := e.c10Reverse(s, tt, st, rng.Uint64())
+		if out.skipped {
+			rep.Count("requests_skipped_cause_already_recorded", 1)
+			continue
+		}
 		e.quiesce()
 		rep.Eval()
 		rep.Count("reverse_requests", 1)
@@ -238,5 +240,5 @@ func (e *c10Env) runReverseCases(rng *kit.RNG, nCases int) {
 }
 
 func TestVerifC10Reverse(t *testing.T) {
-	c10Run(t, "reverse", true, kit.Scale(30, 240), kit.Scale(90, 250))
+	c10Run(t, "reverse", true, kit.Scale(50, 320), kit.Scale(110, 253))
 }
